@@ -217,6 +217,93 @@ def worker_orders(cfg, tier):
     return obs
 
 
+def worker_threading(inst, tier):
+    """L-step (engine B): inside one compiled partition every executed step is handed the state returned by the node's previous executed
+    step (or the graph state's, for the first), its own slot's seq/ts, the unchanged rng/params; afterwards the graph state carries the last
+    returned state and seq+1.  Run masks, seqs and the whole state are symbolic; step functions are uninterpreted."""
+    import jax
+    from vlib import cg, fixtures, jx, smt
+
+    nodes, cgr, g = cg.build(inst, node_cls=fixtures.OracleNode)
+    gs0 = g.init(jax.random.PRNGKey(1))
+    sup = g.supervisor.name
+    per_kind, uniform, n_gen = cg.slot_order(g)
+    calls = cg.UFCalls()
+    it = jx.Interp(callback_handler=calls.handler)
+    alg = it.alg
+    tr = jx.Traced(g.run, gs0)
+    flat = tr.sym_inputs(it, "g")
+    gin = tr.in_pytree(flat)[0]
+    out = tr.run(it, flat)
+    step_in = gin.step.item()
+    assume = [step_in >= 0, step_in <= g.max_steps - 1]
+    obs = []
+    for kind, slots in list(per_kind.items()) + [(sup, [(g._supervisor_slot, n_gen)])]:
+        cs = calls.by_tag(f"oracle_step_{kind}")
+        if len(cs) != len(slots):
+            obs.append(Ob(f"threading [{kind}]", "error", 0, inst, detail="occurrence/slot mismatch (see C06)"))
+            continue
+        conj = []
+        cur_state = alg.z(gin.state[kind].x.item(), "f")
+        cur_seq = None
+        for c, (sname, rnd) in zip(cs, slots):
+            sl = gin.timings_eps.slots[sname]
+            G = alg.z(c["guard"]) if kind != sup else z3.BoolVal(True)
+            seq_s = cg.sel(alg, sl.seq, step_in).item()
+            conj.append(z3.Implies(G, z3.And(alg.z(c["args"][2].item(), "f") == cur_state, alg.z(c["args"][0].item(), "i") == seq_s)))
+            ret_state = alg.z(c["outs"][0].v[0], "f")
+            cur_state = z3.If(G, ret_state, cur_state)
+            cur_seq = z3.If(G, seq_s + 1, cur_seq) if cur_seq is not None else z3.If(G, seq_s + 1, alg.z(gin.seq[kind].item(), "i"))
+        conj.append(alg.z(out.state[kind].x.item(), "f") == cur_state)
+        conj.append(alg.z(out.seq[kind].item(), "i") == cur_seq)
+        e = jx.sa_equal(alg, out.rng[kind], gin.rng[kind])
+        conj.append(e if not isinstance(e, bool) else z3.BoolVal(e))
+        e = jx.tree_equal(alg, out.params[kind], gin.params[kind])
+        conj.append(e if not isinstance(e, bool) else z3.BoolVal(e))
+        v, m, s = smt.check(assume, z3.And(*conj), 120)
+        o = Ob(f"compiled partition threads state/seq/rng/params from one executed step of a node to the next [{'supervisor' if kind == sup else 'node'}]", v, s, inst,
+               key="compiled-threading", what="the compiled runner hands a step a state/seq that is not the previous step's result / the slot's, or alters rng/params")
+        if v == "sat":
+            from props.c06 import _replay_compiled
+            o.replayed = _replay_threading(inst, m, tr, flat, kind)
+        obs.append(o)
+    return obs
+
+
+def _replay_threading(inst, model, tr, flat, kind):
+    """real run with the logging oracle: the state handed to each executed step must be the previous executed step's returned state"""
+    import jax
+    from vlib import cg, fixtures
+
+    try:
+        args = cg.model_inputs(model, tr, flat)
+        gs = args[0]
+        fixtures.CALL_LOG.clear()
+        out = tr.fn(*args)
+        prev = float(gs.state[kind].x)
+        exp_seq = int(gs.seq[kind])
+        bad = False
+        for tag, a in fixtures.CALL_LOG:
+            if tag != f"oracle_step_{kind}":
+                continue
+            exp_seq = int(a[0]) + 1
+            if abs(float(a[2]) - prev) > 1e-5 * max(1.0, abs(prev)):
+                bad = True
+            # what the logging oracle returned as new state: element 0 of its deterministic result
+            tg = f"step_{kind}"
+            h = (sum(ord(ch) for ch in tg) % 17) * 0.0625
+            for i, x in enumerate(a):
+                h += float(np.sum(np.asarray(x, dtype=np.float64))) * (0.5 + 0.25 * i + (sum(ord(ch) for ch in tg) % 5) * 0.125)
+            prev = float(np.float32(0.125 + h))
+        if abs(float(out.state[kind].x) - prev) > 1e-4 * max(1.0, abs(prev)):
+            bad = True
+        if int(out.seq[kind]) != exp_seq:
+            bad = True
+        return bad
+    except BaseException:  # noqa
+        return None
+
+
 def order_configs():
     out = []
     for blocking, skip, jitter in ((False, False, "latest"), (False, True, "latest"), (True, False, "latest")):
@@ -265,6 +352,12 @@ def run(rep):
                        "InputState.push modelled by its list semantics (decided separately by engine B in C03)"]
     rep.stubs = ["_submit -> recorder + single-worker executor simulation", "node.step -> deterministic opaque stand-in", "_jit_sample -> fresh non-negative delays"]
     obs = pmap("props.c01", "worker", cfgs, rep.tier)
+    from rex import partition_runner
+    from vlib import cg
+    rep.encode(partition_runner.make_run_partition_excl_supervisor, partition_runner.make_update_state)
+    tinst = cg.instances(rep.tier, small=True)
+    rep.configs = cfgs + tinst
+    obs += pmap("props.c01", "worker_threading", tinst, rep.tier)
     rep.paths = sum((o.get("detail") or {}).get("stats", {}).get("paths", 0) for o in obs if isinstance(o.get("detail"), dict))
     rep.add_all(obs)
 
